@@ -176,6 +176,49 @@ def tree_equal(a, b):
     return type(a) == type(b) and a == b if isinstance(a, (bool, str)) or isinstance(b, (bool, str)) or a is None or b is None else a == b
 
 
+def config_state(m):
+    """the configuration held by a manager, read from the objects themselves (not through to_input)"""
+    st = {}
+    f = m._fluid
+    st['fluid'] = (f.fluid_type.name, f.concentration_percent, f.temperature)
+    st['grout'] = (m._grout.k, m._grout.rhoCp)
+    st['soil'] = (m._soil.k, m._soil.rhoCp, m._soil.ugt)
+    p = m._pipe
+    st['pipe'] = (m.pipe_type.name, p.r_in, p.r_out, p.s, p.roughness, p.k, p.rhoCp, p.n_pipes, [list(q) for q in p.pos] if isinstance(p.pos, list) else list(p.pos))
+    st['borehole'] = (m._borehole.D, m._borehole.r_b, m._borehole.H)
+    sp = m._simulation_parameters
+    st['simulation'] = (sp.start_month, sp.end_month, sp.max_EFT_allowable, sp.min_EFT_allowable, sp.max_height, sp.min_height, sp.max_boreholes,
+                        bool(sp.continue_if_design_unmet))
+    g = m._geometric_constraints
+    st['geometry'] = {k: (v.name if hasattr(v, 'name') and not isinstance(v, (Sym, str)) else v) for k, v in sorted(vars(g).items())}
+    st['design'] = (type(m._design).__name__, m._design.V_flow, m._design.flow_type.name, m._design.method.name)
+    st['loads'] = list(m._ground_loads)
+    return st
+
+
+def state_equal(a, b, path=''):
+    """equality of two configurations; rotation limits (radians) within 1e-9 (they are written rounded to 1e-10 degree)"""
+    if isinstance(a, dict):
+        if not isinstance(b, dict) or set(a) != set(b):
+            return False
+        return conj([state_equal(a[k], b[k], path + '/' + str(k)) for k in a])
+    if isinstance(a, (list, tuple)):
+        if not isinstance(b, (list, tuple)) or len(a) != len(b):
+            return False
+        if len(a) > 100:
+            return list(a) == list(b)
+        return conj([state_equal(x, y, path) for x, y in zip(a, b)])
+    if path.endswith('_rotation'):
+        return abs(a - b) <= 1e-9
+    if isinstance(a, Sym) or isinstance(b, Sym):
+        if a is None or b is None or isinstance(a, (str, bool)) or isinstance(b, (str, bool)):
+            return False
+        return a == b
+    if isinstance(a, float) or isinstance(b, float):
+        return a is not None and b is not None and not isinstance(a, str) and not isinstance(b, str) and abs(a - b) <= 1e-12 * (abs(a) + abs(b))
+    return a == b
+
+
 def make_fn(geo, pipe, opts, twin=False):
     def fn(e):
         import ghedesigner.manager as M
@@ -198,6 +241,7 @@ def make_fn(geo, pipe, opts, twin=False):
         m2.write_input_file('/dev/null')
         d2 = CAP['written']
         cs.append(tree_equal(d1, d2))
+        cs.append(state_equal(config_state(m), config_state(m2)))        # the same configuration, not merely the same file
         if 'rot_min' in e.inputs:
             # counterexamples are preferred at angles whose degree -> radian -> degree conversion is inexact in binary64
             e.prefer.append(z3.And(z3.Or(e.inputs['rot_min'] == 30, e.inputs['rot_min'] == -30), z3.Or(e.inputs['rot_max'] == 30, e.inputs['rot_max'] == 7)))
@@ -236,6 +280,10 @@ def make_replay(geo, pipe, opts):
                 return True, info
             got['mgr'].write_input_file(f2)
             same = f1.read_text() == f2.read_text()
+            if same and not bool(state_equal(config_state(m), config_state(got['mgr']))):
+                a, b = config_state(m), config_state(got['mgr'])
+                info['configuration_differs'] = {k: (str(a[k])[:120], str(b[k])[:120]) for k in a if not bool(state_equal(a[k], b[k], '/' + k))}
+                return True, info
             if not same:
                 a, b = json.loads(f1.read_text()), json.loads(f2.read_text())
                 info['diff'] = {sec: {k: (a[sec].get(k), b[sec].get(k)) for k in a[sec] if a[sec].get(k) != b[sec].get(k)} for sec in a
